@@ -125,6 +125,8 @@ struct GenOpts {
     bool allow_threads = true;
     bool dup_heavy = false;  ///< C11: more and longer duplicate runs
     bool unsigned_only = false;
+    bool ef_bimodal = false;       ///< Elias-Fano: about 1 case in 250: >= 10^5 minimal segments packed into a tiny part of a huge key space (select long-superblock path)
+    bool allow_giant = false;      ///< about 1 case in 400: n around / above 2^24 built from <= 300 distinct keys with huge duplicate runs (ranks > 2^24)
     size_t span_multiple_edge = 0; ///< Bucketing: 1/4 of the arrays end so that (last - first) is m*M + d, d in {-1,0,+1}, M = this value
     bool pow2_span_edge = false; ///< Elias-Fano: 1/4 of the arrays end so that (last segment key - first key) is 2^k-3 .. 2^k (universe-size edge)
     const std::string *xkeys = nullptr;    ///< explicit keys from a replay file (run-length text), overrides the recipe
@@ -173,6 +175,97 @@ std::vector<K> gen_keys(TapeReader &t, const GenOpts &o, KeyMeta &meta) {
     const Lattice<K> lat = Lattice<K>::make(t);
     std::ostringstream rec;
     const size_t eps = o.eps;
+
+    // ---- "bimodal" class for Elias-Fano: a cluster of g-key groups separated by wildly varying jumps (=> minimal segments) followed by a
+    //      sparse tail that makes the universe - and so the bucket width of the code - astronomically larger than the cluster
+    if (o.ef_bimodal && !o.xkeys && sizeof(K) == 8 && !std::is_floating_point_v<K> && o.size_hint >= 96 && t.chance(1, 6)) {
+        size_t groups = 60000 + t.below(140000);
+        size_t g = eps + 1 + t.below(eps + 1); // eps+1 .. 2*eps+1 consecutive keys per group
+        size_t tail = 2000 + t.below(40000);
+        unsigned jb = 4 + (unsigned) t.below(12), tb = 30 + (unsigned) t.below(22);
+        bool cluster_first = t.chance(1, 3);
+        meta.threads = o.allow_threads ? 1 + (int) t.below(20) : 1;
+        SplitMix pr(t.bits(64));
+        std::vector<K> keys;
+        keys.reserve(groups * g + tail + 8);
+        i128 cur = lat.lo + (i128) t.below(1000);
+        auto sparse = [&](size_t cnt) {
+            for (size_t i = 0; i < cnt; ++i) {
+                i128 step = ((i128) 1 << tb) + (i128) (pr.next() & ((uint64_t(1) << tb) - 1));
+                if (lat.hi - cur < step) break;
+                cur += step;
+                keys.push_back(lat.to_key(cur));
+            }
+        };
+        keys.push_back(lat.to_key(cur));
+        if (!cluster_first) sparse(tail / 2);
+        meta.block_starts.push_back(keys.size());
+        for (size_t G = 0; G < groups; ++G) {
+            i128 jump = 2 + (i128) (pr.next() & ((uint64_t(1) << pr.below(jb + 1)) - 1));
+            if (lat.hi - cur < jump + (i128) g) break;
+            cur += jump;
+            for (size_t i = 0; i < g; ++i) keys.push_back(lat.to_key(cur + (i128) i));
+            cur += (i128) g - 1;
+        }
+        meta.block_starts.push_back(keys.size());
+        sparse(cluster_first ? tail : tail - tail / 2);
+        meta.n = keys.size();
+        meta.size_class = "bimodal";
+        meta.chunks = chunk_count(meta.n, meta.threads);
+        for (size_t i = 1; i < meta.chunks; ++i) meta.seams.push_back(i * (meta.n / meta.chunks));
+        meta.query_seed = t.bits(64);
+        rec << "class=bimodal groups=" << groups << "x" << g << " jumps<2^" << jb << " tail=" << tail << " gaps~2^" << tb << " threads=" << meta.threads;
+        meta.recipe = rec.str();
+        for (size_t i = 1; i < keys.size(); ++i)
+            if (keys[i] < keys[i - 1]) throw HarnessBug("bimodal class: unsorted");
+        keys.shrink_to_fit();
+        return keys;
+    }
+
+    // ---- "giant" class: ranks beyond 2^24 (where a float can no longer hold a rank exactly) at the price of a few distinct keys
+    if (o.allow_giant && !o.xkeys && sizeof(K) <= 4 && o.size_hint >= 98 && t.chance(1, 8)) {
+        size_t n = (size_t(1) << 24) - 64 + t.below(size_t(1) << 22);
+        size_t d = 1 + t.below(300);
+        meta.threads = o.allow_threads ? 1 + (int) t.below(20) : 1;
+        SplitMix pr(t.bits(64));
+        unsigned gb = 1 + (unsigned) t.below(std::min(30u, lat.width_bits - 1));
+        std::vector<i128> vals;
+        i128 cur = t.chance(1, 2) ? lat.lo : lat.lo + (i128) (pr.next() % (uint64_t) std::min<i128>(lat.hi - lat.lo, (i128) 1 << 62));
+        for (size_t i = 0; i < d; ++i) {
+            vals.push_back(cur);
+            i128 step = 1 + (i128) (pr.next() & ((uint64_t(1) << pr.below(gb + 1)) - 1));
+            if (lat.hi - cur < step) break;
+            cur += step;
+        }
+        d = vals.size();
+        // run lengths: a few huge runs, many short ones
+        std::vector<size_t> cnt(d, 1);
+        size_t left = n - d;
+        for (size_t i = 0; i < d && left > 0; ++i) {
+            size_t c = pr.below(4) == 0 ? pr.below(left + 1) : pr.below(std::min<size_t>(left, 4 * eps + 40) + 1);
+            cnt[i] += c;
+            left -= c;
+        }
+        cnt[pr.below(d)] += left;
+        std::vector<K> keys;
+        keys.reserve(n);
+        for (size_t i = 0; i < d; ++i) {
+            meta.block_starts.push_back(keys.size());
+            keys.insert(keys.end(), cnt[i], lat.to_key(vals[i]));
+        }
+        meta.n = keys.size();
+        meta.size_class = "giant";
+        meta.has_dup = true;
+        meta.chunks = chunk_count(meta.n, meta.threads);
+        for (size_t i = 1; i < meta.chunks; ++i) meta.seams.push_back(i * (meta.n / meta.chunks));
+        meta.starts_lowest = vals.front() == lat.lo;
+        meta.top_reached = vals.back() == lat.hi;
+        meta.query_seed = t.bits(64);
+        rec << "class=giant n=" << meta.n << " distinct=" << d << " threads=" << meta.threads;
+        meta.recipe = rec.str();
+        if (keys.size() != n) throw HarnessBug("giant class: wrong size");
+        return keys;
+    }
 
     // ---- size class
     static const unsigned w0[] = {3, 3, 0, 0, 0}, w1[] = {1, 3, 2, 0, 0}, w2[] = {1, 2, 3, 1, 0}, w3[] = {1, 1, 2, 3, 2};
